@@ -4,6 +4,7 @@ helper lemmas are in Lemmas*.lean. `H` is the keyed hash (SipHash-2-4 under the 
 arbitrary function; `dsha` is double-SHA256 as an arbitrary function.
 -/
 import BV.C20.LemmasSer
+import BV.C20.LemmasPmt
 import BV.Generated.C20
 namespace BV.C20
 open Spec
@@ -175,6 +176,43 @@ theorem filter_header_chain_seq (dsha : Bytes → Bytes) (fs : List Filter) (pre
     simp only [List.map_cons, headerChain, List.foldl_cons]
     rw [← ih]
     simp [makeHeaderForFilter, filterHeader]
+
+/-! ### merkle block (partial merkle tree), node hash `hh` abstract -/
+
+/-- BIP37 extraction of the merkle block built by `NewMerkleBlock` (for ANY number of transactions
+    n ≥ 1 — odd levels, n = 1, … — and ANY matched subset) succeeds and yields exactly the matched
+    transactions (index and txid, in block order) and the root hash `calcHash(height, 0)`. -/
+theorem pmt_extract_build {α : Type} (hh : α → α → α) (dflt : α) (leaves : List α) (matched : List Bool)
+    (hne : leaves ≠ []) (hlen : matched.length = leaves.length) (hn : leaves.length ≤ 2 ^ 64) :
+    Pmt.extract hh leaves.length (Pmt.packFlags (Pmt.newMerkleBlock hh dflt leaves matched).bits)
+        (Pmt.newMerkleBlock hh dflt leaves matched).hashes
+      = some (Pmt.calcHash hh dflt leaves (Pmt.treeHeight leaves.length) 0,
+              ((List.range leaves.length).filter (fun i => matched.getD i false)).map
+                (fun i => (i, leaves.getD i dflt))) := by
+  rw [Pmt.extract_newMerkleBlock hh dflt leaves matched hne hlen,
+    Pmt.matchedUnder_root dflt leaves matched hlen hn]
+
+/-- the index list `NewMerkleBlock` returns is the same matched set -/
+theorem pmt_matched_indices {α : Type} (hh : α → α → α) (dflt : α) (leaves : List α) (matched : List Bool) :
+    (Pmt.newMerkleBlock hh dflt leaves matched).matchedIdx =
+      (List.range leaves.length).filter (fun i => matched.getD i false) ∧
+    (Pmt.newMerkleBlock hh dflt leaves matched).numTx = leaves.length := ⟨rfl, rfl⟩
+
+/-- size limits of the message: at most one hash per transaction and per flag bit; the flag bytes
+    are ⌈bits/8⌉ and unpack to the bits plus zero padding. -/
+theorem pmt_sizes {α : Type} (hh : α → α → α) (dflt : α) (leaves : List α) (matched : List Bool)
+    (hne : leaves ≠ []) :
+    let mb := Pmt.newMerkleBlock hh dflt leaves matched
+    mb.hashes.length ≤ leaves.length ∧ mb.hashes.length ≤ mb.bits.length ∧
+    (Pmt.packFlags mb.bits).length = (mb.bits.length + 7) / 8 ∧
+    ∃ k, k < 8 ∧ Pmt.unpackFlags (Pmt.packFlags mb.bits) = mb.bits ++ List.replicate k false := by
+  have hn : 0 < leaves.length := List.length_pos_iff.mpr hne
+  have hb := Pmt.traverse_hashes_bound hh dflt leaves matched (Pmt.treeHeight leaves.length) 0 (by omega)
+  refine ⟨by simp only [Pmt.newMerkleBlock]; omega,
+    Pmt.traverse_hashes_le_bits hh dflt leaves matched _ 0, Pmt.packFlags_length _, Pmt.unpack_packFlags _⟩
+
+example : Pmt.extract (fun (a b : Nat) => a + 2 * b + 1) 3 [0x0b] [7, 8, 28] =
+    some (Pmt.calcHash (fun (a b : Nat) => a + 2 * b + 1) 0 [7, 8, 9] 2 0, [(1, 8)]) := by decide
 
 /-! ### pinning of regenerated facts (T2) -/
 
